@@ -6,7 +6,7 @@ note = sys.argv[3] if len(sys.argv) > 3 else ""
 sid = os.path.basename(d.rstrip("/"))
 out = "/verif/seeded/" + sid
 os.makedirs(out, exist_ok=True)
-for f in ("patch.diff", "demo.cpp", "run.sh"):
+for f in ("patch.diff", "demo.cpp", "demo.c", "run.sh"):
     if os.path.exists(os.path.join(d, f)):
         shutil.copy(os.path.join(d, f), out)
 meta = json.load(open(os.path.join(d, "meta.json")))
